@@ -6,6 +6,7 @@ import random
 import shutil
 import signal as pysignal
 
+import lockhold
 import vlib
 from vlib import cN, cbool, clist, cnat
 
@@ -68,6 +69,8 @@ def run(chk, replay=None):
         obs = respawn_stage(chk, st, rng, rp["loops"] if rp else None)
     if rp is None or "pidfile" in rp:
         pidfile_stage(chk, st, random.Random(chk.seed ^ 0x20C20), rp["pidfile"] if rp else None, obs)
+    if rp is None:
+        lockhold.run_stage(chk)      # watcher-role daemons: the lock survives worker crashes and respawns
 
 
 def respawn_stage(chk, st, rng, replay_loops):
